@@ -502,6 +502,10 @@ func (c *c07) buildCases(thorough bool) []*c07Case {
 				{name: "hook-bad-signer-string", msgs: 1, badSig: "badfrom", expect: "REFUND"},
 				{name: "hook-withdraw-then-fail", msgs: 2, badSig: "withdraw-then-fail", expect: "REFUND"},
 				{name: "hook-empty-signer-string", msgs: 1, badSig: "emptyfrom", expect: "REFUND"},
+				// the hook fails with a long failure text that is not ASCII (the bank echoes the invalid denom / the memo-like
+				// recipient): the reason is cut to its limit and reported, like any other
+				{name: "hook-multibyte-denom", msgs: 1, badSig: "multibyte-denom", expect: "REFUND"},
+				{name: "hook-multibyte-denom-2of2", msgs: 2, badSig: "multibyte-denom", expect: "REFUND"},
 			}
 			for _, h := range hooks {
 				cs := mk(h.name)
@@ -523,6 +527,10 @@ func (c *c07) buildCases(thorough bool) []*c07Case {
 				}
 				for i := 0; i < h.msgs; i++ {
 					msgs = append(msgs, banktypes.NewMsgSend(r.acct.Addr, c.hookTarget.Addr, sdk.NewCoins(sdk.NewCoin(cs.msg.Amount.Denom, amt))))
+				}
+				if h.badSig == "multibyte-denom" {
+					// 60 three-byte characters: more than 128 bytes, fewer than 128 characters
+					msgs[len(msgs)-1] = &banktypes.MsgSend{FromAddress: r.acct.String(), ToAddress: c.hookTarget.String(), Amount: sdk.Coins{sdk.Coin{Denom: strings.Repeat("中", 60), Amount: math.NewInt(1)}}}
 				}
 				if h.badSig == "withdraw-then-fail" {
 					// first message: a withdrawal that would succeed on its own; second: a transfer that cannot be paid
